@@ -28,7 +28,40 @@ func genAttempt(t *rapid.T) Attempt {
 	if a.End != "block" {
 		a.EndDelay = rapid.SampledFrom([]int{0, 0, 1, 2, 4}).Draw(t, "end-delay")
 	}
+	// The kind of error value each failing step returns: the plain value half
+	// of the time, otherwise one of the structured family (errkind.go).
+	if a.Conn == "err" || a.Conn == "park" {
+		a.ConnErr = genErrKind(t, "conn-err", errKinds, 2)
+	}
+	if a.Sub == "err" {
+		a.SubErr = genErrKind(t, "sub-err", errKinds, 2)
+	}
+	if a.End == "err" {
+		a.EndErr = genErrKind(t, "end-err", recvErrKinds, 2)
+	}
+	a.CloseErr = genErrKind(t, "close-err", errKinds, 6)
 	return a
+}
+
+// genDecoy: one case in eight names a second, always failing client type.
+func genDecoy(t *rapid.T) (string, bool) {
+	if rapid.IntRange(0, 7).Draw(t, "decoy") != 7 {
+		return "", false
+	}
+	kind := "plain"
+	if rapid.IntRange(0, 1).Draw(t, "decoy-structured") == 1 {
+		kind = rapid.SampledFrom(errKinds).Draw(t, "decoy-err")
+	}
+	return kind, rapid.Bool().Draw(t, "decoy-first")
+}
+
+// genErrKind draws "" (the default value of the site) with probability
+// (oneIn-1)/oneIn, otherwise one of kinds.
+func genErrKind(t *rapid.T, label string, kinds []string, oneIn int) string {
+	if rapid.IntRange(0, oneIn-1).Draw(t, label+"-structured") != oneIn-1 {
+		return ""
+	}
+	return rapid.SampledFrom(kinds).Draw(t, label)
 }
 
 // genScenario draws one case of half A. The stop instant is either aimed at a
@@ -48,6 +81,7 @@ func genScenario(t *rapid.T, favourDefault bool) *Scenario {
 	sc.MaxDelay = sc.BaseDelay * rapid.SampledFrom([]int{1, 2, 2, 3, 5, 10}).Draw(t, "max-factor")
 	sc.Timeout = rapid.SampledFrom([]int{0, 0, 5, 50}).Draw(t, "timeout")
 	sc.Stop = rapid.SampledFrom([]string{"close", "close", "close", "close", "cancel"}).Draw(t, "stop")
+	sc.Decoy, sc.DecoyFirst = genDecoy(t)
 
 	if sc.Plain {
 		a := genAttempt(t)
@@ -201,6 +235,64 @@ func genDeafAim(t *rapid.T, sc *Scenario, mode string) {
 		sc.Target = mode + "-missing"
 	}
 	sc.StopAt = ulo + (uhi-ulo)*frac/7
+}
+
+// genLife draws one case of part "lifetime": the client configuration and
+// transport script of half A plus a sequence of 1-8 calls on the one client.
+func genLife(t *rapid.T) *LScenario {
+	sc := &LScenario{}
+	sc.Client = rapid.SampledFrom([]string{"base", "base", "cache"}).Draw(t, "client")
+	sc.Proto = rapid.IntRange(0, 3).Draw(t, "proto") == 3 && sc.Client == "base"
+	sc.Plain = rapid.IntRange(0, 5).Draw(t, "plain") == 5
+	sc.BaseDelay = rapid.SampledFrom([]int{2, 2, 3, 4, 6, 10, 20, 500}).Draw(t, "base-delay")
+	sc.MaxDelay = sc.BaseDelay * rapid.SampledFrom([]int{1, 2, 2, 3, 5, 10}).Draw(t, "max-factor")
+	sc.Timeout = rapid.SampledFrom([]int{0, 0, 5, 50}).Draw(t, "timeout")
+	sc.NilCallbacks = rapid.IntRange(0, 11).Draw(t, "nil-callbacks") == 11 && !sc.Plain
+	sc.Decoy, sc.DecoyFirst = genDecoy(t)
+	sc.Attempts = rapid.SliceOfN(rapid.Custom(genAttempt), 0, 6).Draw(t, "attempts")
+	if sc.Plain {
+		for i := range sc.Attempts {
+			a := &sc.Attempts[i]
+			if a.Conn != "ok" && a.Conn != "err" {
+				a.Conn, a.ConnErr = "ok", ""
+			}
+			a.ConnDelay = 0
+		}
+	}
+	waits := []int{0, 0, 0, 1, 1, 2, 3, 5, sc.BaseDelay, sc.BaseDelay + 1, 2 * sc.BaseDelay, sc.MaxDelay + 1}
+	// Close is final for a reconnecting client, so it is the rarer step: most
+	// of the sequence happens on a client that can still be used.
+	kinds := []string{"subscribe", "subscribe", "subscribe", "subscribe", "subscribe", "cancel", "cancel", "cancel", "cancel", "close", "close", "poll"}
+	sc.Ops = rapid.SliceOfN(rapid.Custom(func(t *rapid.T) LifeOp {
+		op := LifeOp{Kind: rapid.SampledFrom(kinds).Draw(t, "kind"), Wait: rapid.SampledFrom(waits).Draw(t, "wait")}
+		op.Cancelled = rapid.IntRange(0, 9).Draw(t, "cancelled-context") == 9 && op.Kind == "subscribe"
+		return op
+	}), 1, 10).Draw(t, "ops")
+	// three sequences in four start with Subscribe
+	if rapid.IntRange(0, 3).Draw(t, "subscribe-first") != 0 || sc.Ops[0].Kind == "cancel" {
+		sc.Ops[0].Kind = "subscribe"
+	}
+	// A Subscribe step that would find the previous Subscribe of a
+	// reconnecting client still running is skipped by the runner: make it the
+	// cancellation of that Subscribe instead (a plain client's stream may have
+	// ended by itself, so its steps stay as drawn).
+	open, closed := false, false
+	for i := range sc.Ops {
+		op := &sc.Ops[i]
+		if op.Kind == "subscribe" && open && !sc.Plain {
+			op.Kind = "cancel"
+		}
+		op.Cancelled = op.Cancelled && op.Kind == "subscribe"
+		switch op.Kind {
+		case "subscribe":
+			open = !closed && !op.Cancelled
+		case "cancel":
+			open = false
+		case "close":
+			open, closed = false, true
+		}
+	}
+	return sc
 }
 
 // ---------------------------------------------------------------------------
